@@ -306,3 +306,12 @@ Definition ok (c : case) : bool :=
                   | EHang => if p_on_hang (c_plan c) then FStatusCanceled else FTimeout
                   | e => err_of e end))
   end.
+
+(* ---- several watch streams at the same time through ONE interceptor / connection ----
+   NewStreamRetry keeps no state of its own: every stream gets its own retryStream and every
+   broken RecvMsg builds its own back-off policy, so each stream must behave exactly as it
+   would alone.  A concurrent case is the list of the per-stream cases (each logical stream
+   has its own server script); it is checked stream by stream against the single-stream model. *)
+Definition ccase := list case.
+Definition cagree (c : ccase) : bool := forallb agree c.
+Definition cok (c : ccase) : bool := forallb ok c.
